@@ -22,5 +22,5 @@ pub const META: Meta = Meta {
 };
 
 pub fn run(ctx: &Ctx) -> Outcome {
-    crate::meshrun::run(ctx, Prop::C29, &["note.joined", "note.left", "multi-add.Heartbeat", "multi-add.SubscribeRpc", "multi-remove.Heartbeat", "add.GraftRpc", "remove.PruneRpc", "close-oldest-connection-of-mesh-peer", "close-newest-connection-of-mesh-peer", "step-with-peer-in-two-meshes-and-unshared-topic"])
+    crate::meshrun::run(ctx, Prop::C29, &["note.joined", "note.left", "multi-add.Heartbeat", "multi-add.SubscribeRpc", "multi-remove.Heartbeat", "add.GraftRpc", "remove.PruneRpc", "close-oldest-connection-of-mesh-peer", "close-newest-connection-of-mesh-peer", "step-with-peer-in-two-meshes-and-unshared-topic", "add-stalled-peer.LocalSubscribe", "add-stalled-peer.SubscribeRpc"])
 }
